@@ -88,7 +88,7 @@ def run(ctx):
     # The bodies that produce load_and_decrypt's success value: itself, or (when it hands the job to helpers and returns
     # their result) those helpers. Every file any of them reads must be the store path itself: a second source of key
     # material (backup copy, previous generation) is a store the current password does not protect.
-    lb0 = prog.async_body(MGR + '::load_and_decrypt')
+    lb0 = prog.inl(MGR + '::load_and_decrypt', keep=r'::derive_key$')
     producers = []      # (body, bb, stmt)
     reads = []          # (body, call site, path expr, [caller arg exprs])
 
@@ -180,7 +180,7 @@ def run(ctx):
     ctx.floor('PLAINTEXT-FROM-AEAD', 2)
 
     # ---- 3. temp + rename discipline
-    eb = prog.async_body(MGR + '::encrypt_and_store')
+    eb = prog.inl(MGR + '::encrypt_and_store', keep=r'::derive_key$')
     opens = eb.calls(r'OpenOptions::open$|fs::File::create$|^std::fs::write$')
     rn = eb.calls(r'^std::fs::rename$')
     okt = bool(opens) and bool(rn)
@@ -209,9 +209,10 @@ def run(ctx):
     ctx.ob('TEMP-RENAME', 'encrypt_and_store', okt, eb.where(),
            'store file is written to a with_extension temp path, checked, then renamed onto storage_path' if okt else '; '.join(detail) or 'no open/rename found')
     # nobody else writes the store path
+    EB_ROOT = MGR + '::encrypt_and_store'
     for b in bodies:
-        if b.id == eb.id:
-            continue
+        if b.id == eb.id or (b.root != EB_ROOT and prog.owner_roots(b.root, stop={EB_ROOT}) == {EB_ROOT}):
+            continue        # encrypt_and_store itself, or a private helper working only for it (seen through the inlined body)
         for cs in b.calls(r'OpenOptions::open$|fs::File::create$|^std::fs::write$|^tokio::fs::write|^std::fs::rename$|^std::fs::copy$'):
             txt = ' '.join(b.expr(a).show() for a in cs.args)
             if 'storage_path' in txt:
